@@ -8,14 +8,31 @@
 (* no never-stored value, no missing previously persisted key (unless T    *)
 (* removes it), no key that exists in neither, no changed neighbour.       *)
 (***************************************************************************)
-EXTENDS Integers, Sequences, FiniteSets, TLC, Json, IOUtils
+(*                                                                         *)
+(* Every cut is also followed byte by byte against the model of the write  *)
+(* plan and of the loader (NunDiskBytes): the files of the image must be   *)
+(* the files the modelled sequence of file-system calls leaves at that     *)
+(* crash point, and what the real start-up loaded must be what the modelled*)
+(* loader reads from them.  A failing image is accepted as the recorded    *)
+(* finding only while the run follows that model, i.e. while it is exactly *)
+(* the failure the pinned write plan and loader produce; an image of a run *)
+(* that left the model is judged with no recorded finding.                 *)
+(***************************************************************************)
+EXTENDS NunDiskBytes, TLC, Json, IOUtils
 
 Rec == ndJsonDeserialize(IOEnv.TRACE)
 Cfg == JsonDeserialize(IOEnv.CFG)
 Devs == {Cfg.devs[i] : i \in DOMAIN Cfg.devs}
 
-VARIABLES l, persisted, queue, reclaiming, used
-tvars == <<l, persisted, queue, reclaiming, used>>
+VARIABLES l, persisted, queue, reclaiming, used,
+          cb,        \* index of the crashbegin line of the interrupted snapshot being followed (0: none)
+          mw,        \* model: per queued database the writer state (files + the two buffers)
+          prog,      \* model: file-system calls still to come, <<[db, ins]>>
+          disk,      \* the real files, rebuilt from the recorded patches
+          followed,  \* the run has followed the model so far
+          cnt        \* <<images, images that follow the model>>
+tvars == <<l, persisted, queue, reclaiming, used, cb, mw, prog, disk, followed, cnt>>
+mvars == <<cb, mw, prog, disk, followed, cnt>>
 E == Rec[l]
 
 Success(cls) == cls \in {"ok", "value"}
@@ -32,28 +49,100 @@ Safe(P, T, R) ==
        \/ k \notin DOMAIN T.keys /\ k \notin DOMAIN R.keys
   /\ \A k \in DOMAIN R.keys \ DOMAIN P.keys : k \in DOMAIN T.keys /\ R.keys[k] = T.keys[k]
 
+Tgt == IF E.ev = "img" THEN Rec[cb].target ELSE E.target
 ImageOK(img) ==
   /\ img.load = "ok"
   /\ \A d \in DOMAIN persisted :
         /\ d \in DOMAIN img.dump
-        /\ Safe(persisted[d], Proj(E.target[d]), Proj(img.dump[d]))
+        /\ Safe(persisted[d], Proj(Tgt[d]), Proj(img.dump[d]))
 
 AllImagesOK == \A i \in DOMAIN E.images : ImageOK(E.images[i])
 
-TraceInit == l = 1 /\ persisted = <<>> /\ queue = {} /\ reclaiming = FALSE /\ used = {} /\ TLCSet(1, 0)
+NoModel == /\ cb' = 0 /\ mw' = <<>> /\ prog' = <<>> /\ disk' = <<>> /\ followed' = FALSE /\ cnt' = <<0, 0>>
+TraceInit == /\ l = 1 /\ persisted = <<>> /\ queue = {} /\ reclaiming = FALSE /\ used = {} /\ TLCSet(1, 0)
+             /\ cb = 0 /\ mw = <<>> /\ prog = <<>> /\ disk = <<>> /\ followed = FALSE /\ cnt = <<0, 0>>
 
 Reset == /\ E.ev = "reset" /\ persisted' = <<>> /\ queue' = {} /\ reclaiming' = FALSE /\ used' = {}
+         /\ NoModel
          /\ ((used # {}) => PrintT(<<"USED", Rec[l-1].run, used>>))
+
+(* ---- following the byte-level model ---- *)
+Snaps(pre) == pre.snaps
+Modelled(pre) == \A i \in DOMAIN pre.snaps : "missing" \notin DOMAIN pre.snaps[i] /\ ~pre.snaps[i].repeated
+SnapIns(sn) == LET p == Plan(sn.files, sn.ents, sn.reclaim, sn.id, sn.strategy)
+               IN [j \in 1..Len(p.ins) |-> [db |-> sn.db, ins |-> p.ins[j]]]
+RECURSIVE AllIns(_, _)
+AllIns(sns, i) == IF i > Len(sns) THEN <<>> ELSE SnapIns(sns[i]) \o AllIns(sns, i + 1)
+FullProg(pre) == (IF pre.keymap_first THEN <<[db |-> "", ins |-> INop("keymap.write")],
+                                              [db |-> "", ins |-> INop("flag.valid.write")]>> ELSE <<>>)
+                 \o AllIns(pre.snaps, 1)
+SnapDbs(pre) == {pre.snaps[i].db : i \in DOMAIN pre.snaps}
+FilesOfDb(pre, d) == (CHOOSE i \in DOMAIN pre.snaps : pre.snaps[i].db = d)
+
+CrashBegin ==
+  /\ E.ev = "crashbegin"
+  /\ cb' = l /\ cnt' = <<0, 0>>
+  /\ IF Modelled(E.pre)
+     THEN /\ mw' = [d \in SnapDbs(E.pre) |-> W(E.pre.snaps[FilesOfDb(E.pre, d)].files, <<>>, <<>>)]
+          /\ disk' = [d \in SnapDbs(E.pre) |-> E.pre.snaps[FilesOfDb(E.pre, d)].files]
+          /\ prog' = FullProg(E.pre)
+          /\ followed' = TRUE
+     ELSE mw' = <<>> /\ disk' = <<>> /\ prog' = <<>> /\ followed' = FALSE
+  /\ UNCHANGED <<persisted, queue, reclaiming, used>>
+
+(* the calls up to and including the next one that is followed by a crash point *)
+RECURSIVE RunTo(_, _)
+RunTo(m, p) ==
+  IF p = <<>> THEN [found |-> FALSE, mw |-> m, rest |-> <<>>, site |-> ""]
+  ELSE LET h == Head(p)
+           m1 == IF h.db = "" THEN m ELSE [m EXCEPT ![h.db] = Exec(m[h.db], h.ins)]
+       IN IF h.ins.site # "" THEN [found |-> TRUE, mw |-> m1, rest |-> Tail(p), site |-> h.ins.site]
+          ELSE RunTo(m1, Tail(p))
+
+ApplyPatch(dk, p) ==
+  IF p.db \notin DOMAIN dk THEN dk
+  ELSE LET fs == dk[p.db] old == fs[p.f].b IN
+       [dk EXCEPT ![p.db] = [fs EXCEPT ![p.f] =
+          IF p.kind = "gone" THEN NoFile
+          ELSE IF p.kind = "created" THEN FileOf(p.ins)
+          ELSE FileOf(SubSeq(old, 1, p.off) \o p.ins \o SubSeq(old, p.off + p.del + 1, Len(old)))]]
+RECURSIVE ApplyPatches(_, _, _)
+ApplyPatches(dk, ps, i) == IF i > Len(ps) THEN dk ELSE ApplyPatches(ApplyPatch(dk, ps[i]), ps, i + 1)
+
+Strs == Rec[cb].strs
+StrId(b) == IF \E i \in DOMAIN Strs : Strs[i] = b THEN CHOOSE i \in DOMAIN Strs : Strs[i] = b ELSE 0
+
+(* what the real start-up loaded is what the modelled loader reads from the modelled files *)
+LoadConforms(m, img) ==
+  LET res == [d \in DOMAIN m |-> LoadDb(m[d].fs, -1)] IN
+  IF \E d \in DOMAIN m : res[d].st = "unmodelled" THEN TRUE
+  ELSE IF \E d \in DOMAIN m : res[d].st = "fail" THEN img.load = "fail"
+  ELSE /\ img.load = "ok"
+       /\ \A d \in DOMAIN m :
+            IF res[d].st = "absent" THEN img.bload[d].st = "absent"
+            ELSE /\ img.bload[d].st = "ok"
+                 /\ {img.bload[d].m[i] : i \in DOMAIN img.bload[d].m}
+                      = {<<StrId(t[1]), StrId(t[2]), t[3]>> : t \in res[d].m}
+                 /\ res[d].id = -1 \/ res[d].id = img.bload[d].id
+                 /\ res[d].id = -1 \/ res[d].strategy = img.bload[d].strategy
+
+Follow ==     \* <<mw', prog', disk', followed'>> for the image E
+  IF ~followed THEN <<mw, prog, disk, FALSE>>
+  ELSE LET r == RunTo(mw, prog)
+           dk == ApplyPatches(disk, E.patch, 1)
+           ok == /\ r.found /\ r.site = E.site
+                 /\ \A d \in DOMAIN dk : dk[d] = r.mw[d].fs
+       IN IF ok /\ LoadConforms(r.mw, E) THEN <<r.mw, r.rest, dk, TRUE>> ELSE <<mw, prog, disk, FALSE>>
 
 SnapshotCmd ==
   /\ E.ev = "cmd" /\ E.op = "snapshot" /\ Success(E.cls)
   /\ queue' = queue \cup {E.names[i] : i \in DOMAIN E.names}
   /\ reclaiming' = E.reclaim
-  /\ UNCHANGED <<persisted, used>>
+  /\ UNCHANGED <<persisted, used>> /\ UNCHANGED mvars
 
 OtherCmd ==
   /\ E.ev \in {"cmd", "close"} /\ ~(E.op = "snapshot" /\ Success(E.cls))
-  /\ UNCHANGED <<persisted, queue, reclaiming, used>>
+  /\ UNCHANGED <<persisted, queue, reclaiming, used>> /\ UNCHANGED mvars
 
 Completed ==
   persisted' = [d \in DOMAIN persisted \cup (queue \cap DOMAIN E.dbs) |->
@@ -61,24 +150,18 @@ Completed ==
 
 Tick ==
   /\ E.ev = "tick" /\ E.cls = "ok"
-  /\ Completed /\ queue' = {} /\ UNCHANGED <<reclaiming, used>>
+  /\ Completed /\ queue' = {} /\ UNCHANGED <<reclaiming, used>> /\ UNCHANGED mvars
 
+(* the end of the interrupted snapshot (it ran to completion in the real node): every image was judged by Img *)
 CrashTick ==
   /\ E.ev = "crashtick" /\ E.cls = "ok"
-  /\ AllImagesOK = TRUE      \* (= TRUE: evaluated as a predicate, not expanded as an action)
-  /\ Completed /\ queue' = {} /\ UNCHANGED <<reclaiming, used>>
+  /\ PrintT(<<"FOLLOW", E.run, cnt[1], cnt[2], followed /\ prog = <<>>>>)
+  /\ Completed /\ queue' = {} /\ UNCHANGED <<reclaiming, used>> /\ NoModel
 
 (* Known findings: windows of the write plan in which a kill leaves files the loader     *)
-(* mis-reads.  Each deviation accepts failing images only inside its window.            *)
-
-(* a space-reclaiming snapshot replaces the files in place: the old values file is      *)
-(* deleted before the new files are complete, and nothing restores the .old keys file   *)
-Dev_ReclaimNotAtomic ==
-  /\ "Dev_ReclaimNotAtomic" \in Devs
-  /\ E.ev = "crashtick" /\ E.cls = "ok" /\ reclaiming
-  /\ AllImagesOK = FALSE
-  /\ Completed /\ queue' = {} /\ UNCHANGED reclaiming
-  /\ used' = used \cup {"Dev_ReclaimNotAtomic"}
+(* mis-reads.  A failing image is accepted only inside its window AND only while the     *)
+(* run follows the byte-level model: it is then exactly the damage the pinned write plan *)
+(* and the pinned loader produce at that cut.                                            *)
 
 (* incremental snapshot: key records (appended through a 250-byte buffer, or updated in *)
 (* place at once) can reach the disk before the value records they point to, and a      *)
@@ -89,27 +172,32 @@ InWindow(img) == img.site \notin {"snapshot.files_open", "snapshot.values.flush"
                                   "keymap.write", "flag.valid.write"}
 (* even inside the window: the node starts and keys the snapshot does not touch are      *)
 (* intact.  (A record cut by a buffer flush can also show up as one more key whose name   *)
-(* is the zero bytes the loader read past the end of the file: which records are cut      *)
-(* depends on the order in which the hash map hands out the keys, so it differs from run  *)
-(* to run.)                                                                               *)
+(* is the zero bytes the loader read past the end of the file.)                           *)
 NeighboursIntact(P, T, R) ==
   \A k \in DOMAIN P.keys : (k \in DOMAIN T.keys /\ T.keys[k] = P.keys[k]) =>
                                (k \in DOMAIN R.keys /\ R.keys[k] = P.keys[k])
 WindowOK(img) ==
   /\ InWindow(img) /\ img.load = "ok"
   /\ \A d \in DOMAIN persisted :
-        d \in DOMAIN img.dump /\ NeighboursIntact(persisted[d], Proj(E.target[d]), Proj(img.dump[d]))
+        d \in DOMAIN img.dump /\ NeighboursIntact(persisted[d], Proj(Tgt[d]), Proj(img.dump[d]))
 
-Dev_KeysBeforeValues ==
-  /\ "Dev_KeysBeforeValues" \in Devs
-  /\ E.ev = "crashtick" /\ E.cls = "ok" /\ ~reclaiming
-  /\ AllImagesOK = FALSE
-  /\ (\A i \in DOMAIN E.images : ~ImageOK(E.images[i]) => WindowOK(E.images[i])) = TRUE
-  /\ Completed /\ queue' = {} /\ UNCHANGED reclaiming
-  /\ used' = used \cup {"Dev_KeysBeforeValues"}
+Img ==
+  /\ E.ev = "img" /\ cb # 0
+  /\ LET f == Follow
+         ok == ImageOK(E)
+     IN /\ mw' = f[1] /\ prog' = f[2] /\ disk' = f[3] /\ followed' = f[4]
+        /\ cnt' = <<cnt[1] + 1, cnt[2] + (IF f[4] THEN 1 ELSE 0)>>
+        /\ cb' = cb
+        /\ IF ok THEN used' = used
+           ELSE IF f[4] /\ reclaiming /\ "Dev_ReclaimNotAtomic" \in Devs
+                THEN used' = used \cup {"Dev_ReclaimNotAtomic"}
+           ELSE IF f[4] /\ ~reclaiming /\ "Dev_KeysBeforeValues" \in Devs /\ WindowOK(E)
+                THEN used' = used \cup {"Dev_KeysBeforeValues"}
+           ELSE FALSE
+  /\ UNCHANGED <<persisted, queue, reclaiming>>
 
 TraceNext == l <= Len(Rec) /\ l' = l + 1 /\
-             (Reset \/ SnapshotCmd \/ OtherCmd \/ Tick \/ CrashTick \/ Dev_ReclaimNotAtomic \/ Dev_KeysBeforeValues)
+             (Reset \/ SnapshotCmd \/ OtherCmd \/ Tick \/ CrashBegin \/ Img \/ CrashTick)
 TraceSpec == TraceInit /\ [][TraceNext]_tvars
 
 Progress ==
